@@ -194,6 +194,27 @@ func vtTimeVal(name string) (pref.Value, int64) {
 	return pref.ValueOfMessage(timestamppb.New(t).ProtoReflect()), t.UnixNano()
 }
 
+// TimeValueWithin(d) on instants up to ~584 years apart (time.Time.Sub saturates beyond 2^63 ns): still symmetric, and
+// instants further apart than any tolerance are never within it.
+func VT_C16_TimeWithinFarApart() {
+	d := vt.Dur("d")
+	vt.Assume(vt.And(d >= 0, d < 1<<62))
+	tx, ty := vt.TimeWide("x"), vt.TimeWide("y")
+	x := pref.ValueOfMessage(timestamppb.New(tx).ProtoReflect())
+	y := pref.ValueOfMessage(timestamppb.New(ty).ProtoReflect())
+	fd := vtWKFD("default_timestamp")
+	c := TimeValueWithin(d)
+	eq, ok := c(fd, x, y)
+	vt.Assert(ok, "time-comparer-answers")
+	eq2, _ := c(fd, y, x)
+	vt.Assert(eq == eq2, "time-within-symmetric-far-apart")
+	xn, yn := tx.UnixNano(), ty.UnixNano()
+	if (xn < -(1<<62) && yn > 1<<62) || (yn < -(1<<62) && xn > 1<<62) {
+		vt.Assert(!eq, "instants-more-than-2^63-ns-apart-are-not-within-a-smaller-tolerance")
+	}
+	vt.Reach("done")
+}
+
 // TimeValueWithin(d), d >= 0.
 func VT_C16_TimeWithin() {
 	d := vt.Dur("d")
